@@ -141,22 +141,32 @@ def check_greedy_kernel(rec, inp):
 
 
 def check_table(rec, agg, amoc, maxi, starts, ends, m, name, inp, where):
-    """Statement, sentence 1b: reported score = max and maximiser = argmax over admissible splits (tie-robust)."""
+    """Statement, sentence 1b: reported score = max and maximiser = argmax over admissible splits (tie-robust).
+    References: the direct definition, then (built-in scorers) a fresh scorer instance; flagged when both disagree."""
     for i, (s, e) in enumerate(zip(_ints(starts), _ints(ends))):
-        vals = {k: agg(s, k, e) for k in range(s + m, e - m + 1)}
-        if not vals or any(v is None for v in vals.values()):
-            continue
-        best = max(vals.values())
-        if not close(float(amoc[i]), best):
-            rec.violation(f"run_seeded_binseg:score:{name}",
-                          f"{where}: interval [{s},{e}) reports score {float(amoc[i])!r}, the maximum of the column-summed change score over splits {s + m}..{e - m} is {best!r}",
-                          "C07.table.score", inp)
-            return False
-        k = int(maxi[i])
-        if k not in vals or not close(vals[k], best):
-            rec.violation(f"run_seeded_binseg:maximiser:{name}",
-                          f"{where}: interval [{s},{e}) reports maximiser {k}, but the maximum {best!r} is attained at {[j for j, v in vals.items() if close(v, best)]}",
-                          "C07.table.argmax", inp)
+        verdict = None
+        for f in (agg, getattr(agg, "alt", None)):
+            if f is None:
+                continue
+            vals = {k: f(s, k, e) for k in range(s + m, e - m + 1)}
+            if not vals or any(v is None for v in vals.values()):
+                verdict = None
+                break
+            best = max(vals.values())
+            k = int(maxi[i])
+            if not close(float(amoc[i]), best):
+                verdict = (f"run_seeded_binseg:score:{name}",
+                           f"{where}: interval [{s},{e}) reports score {float(amoc[i])!r}, the maximum of the column-summed change score over splits "
+                           f"{s + m}..{e - m} is {best!r}", "C07.table.score")
+            elif k not in vals or not close(vals[k], best):
+                verdict = (f"run_seeded_binseg:maximiser:{name}",
+                           f"{where}: interval [{s},{e}) reports maximiser {k}, but the maximum {best!r} is attained at {[j for j, v in vals.items() if close(v, best)]}",
+                           "C07.table.argmax")
+            else:
+                verdict = None
+                break
+        if verdict is not None:
+            rec.violation(verdict[0], verdict[1], verdict[2], inp)
             return False
     return True
 
